@@ -26,7 +26,7 @@ func init() {
 		Phases: func(tier string, seed int64) []Phase {
 			return []Phase{{Name: "cycles", Run: c09Run}, {Name: "cycles-tls-listener", Run: c09Run, Arg: "tls"}}
 		},
-		MinObserved: []string{"requests_tagged", "reconnects_after_close", "onclose_ids_matched", "accept_failure_episodes", "starttls_upgraded_connections", "short_lived_connections", "router_replaced_while_serving", "connection_ids_read_again_after_the_client_left", "other_servers_started_in_the_same_process"},
+		MinObserved: []string{"requests_tagged", "reconnects_after_close", "onclose_ids_matched", "accept_failure_episodes", "starttls_upgraded_connections", "short_lived_connections", "router_replaced_while_serving", "connection_ids_read_again_after_the_client_left", "other_servers_started_in_the_same_process", "unbind_handler_ids_matched", "connections_used_after_a_panic_on_their_read_loop"},
 	})
 }
 
@@ -81,7 +81,21 @@ func c09Run(c *Ctx) {
 	if overTLS {
 		stc, ctc = pki.ServerOnly, pki.ClientPlain
 	}
+	var unbindMu sync.Mutex
+	unbindIDs := map[int]int{}
+	var panicOnUnbind sync.Map // connection id -> true: the unbind handler of that connection panics
 	register := func(m *gldap.Mux) {
+		// the Unbind route sees the connection's ID like any other handler (it has no DN to carry a tag: its IDs are
+		// checked against the IDs the tagged requests of the same connections reported)
+		m.Unbind(func(w *gldap.ResponseWriter, r *gldap.Request) {
+			id := r.ConnectionID()
+			unbindMu.Lock()
+			unbindIDs[id]++
+			unbindMu.Unlock()
+			if _, ok := panicOnUnbind.LoadAndDelete(id); ok {
+				panic("injected panic in the unbind handler (C09)")
+			}
+		})
 		m.Bind(handler)
 		m.Search(handler)
 		m.Modify(handler)
@@ -186,6 +200,11 @@ func c09Run(c *Ctx) {
 				case overTLS && x < 55:
 					kc.Drop()
 					c.Count("tls_connections_ended_without_close_notify", 1)
+				case x < 75:
+					kc.Send(sber.Message(98, sber.UnbindRequest(), nil).Encode())
+					kc.ReadMsg(2 * time.Second) // EOF
+					kc.Close()
+					c.Count("connections_ended_by_unbind", 1)
 				default:
 					kc.Close()
 				}
@@ -273,6 +292,46 @@ func c09Run(c *Ctx) {
 			c.Count("connection_ids_read_again_after_the_client_left", 1)
 		}
 		closedTags <- tag
+	}
+	// a handler that runs on the connection's read loop (the Unbind route) panics; the client sends on regardless.
+	// Whatever the server makes of that connection afterwards, a request of it never reports another ID than before.
+	for k := 0; k < c.N(10, 100); k++ {
+		tag := fmt.Sprintf("tag=after-read-loop-panic-%d", k)
+		kc, err := dialRaw(srv.Addr, ctc)
+		if err != nil {
+			continue
+		}
+		connCtr.Add(1)
+		totalConns++
+		kc.Send(sber.Message(1, sber.BindRequest(3, []byte(tag), []byte("p")), nil).Encode())
+		if _, err := kc.ReadMsg(patience); err != nil {
+			kc.Close()
+			continue
+		}
+		mu.Lock()
+		id := tagID[tag]
+		mu.Unlock()
+		panicOnUnbind.Store(id, true)
+		kc.Send(sber.Message(2, sber.UnbindRequest(), nil).Encode())
+		time.Sleep(2 * time.Millisecond)
+		// a neighbour connects meanwhile (it must get an ID of its own) ...
+		nb := fmt.Sprintf("tag=neighbour-of-read-loop-panic-%d", k)
+		if nc, err := dialRaw(srv.Addr, ctc); err == nil {
+			connCtr.Add(1)
+			totalConns++
+			nc.Send(sber.Message(1, sber.BindRequest(3, []byte(nb), []byte("p")), nil).Encode())
+			nc.ReadMsg(patience)
+			// ... and the first client keeps sending
+			kc.Send(sber.Message(3, sber.BindRequest(3, []byte(tag), []byte("p")), nil).Encode())
+			kc.ReadMsg(300 * time.Millisecond)
+			nc.Send(sber.Message(2, sber.BindRequest(3, []byte(nb), []byte("p")), nil).Encode())
+			nc.ReadMsg(patience)
+			nc.Close()
+			closedTags <- nb
+		}
+		kc.Close()
+		closedTags <- tag
+		c.Count("connections_used_after_a_panic_on_their_read_loop", 1)
 	}
 	// another server is started in the same process while this one keeps accepting: its connections are its own
 	// business, this server's sequence of IDs is not
@@ -522,6 +581,17 @@ func c09Run(c *Ctx) {
 			c.Distinct("connections", t)
 		}
 	}
+	unbindMu.Lock()
+	for id, n := range unbindIDs {
+		if id <= 0 {
+			c.Violate("ConnectionID is not positive", fmt.Sprintf("the unbind handler saw connection id %d (%d times)", id, n), nil)
+		} else if _, ok := idTag[id]; !ok && closes[id] == 0 {
+			c.Violate("the ID passed to OnClose is not the ID the connection's handlers saw", fmt.Sprintf("the unbind handler saw connection id %d, which no other handler and no OnClose callback ever reported", id), nil)
+		} else {
+			c.Count("unbind_handler_ids_matched", 1)
+		}
+	}
+	unbindMu.Unlock()
 	c.Count("tagged_connections", int64(nTagged))
 	c.Count("distinct_ids_seen_by_handlers", int64(len(idTag)))
 	c.Count("distinct_ids_reported_by_onclose", int64(len(closes)))
